@@ -206,17 +206,17 @@ func properties() map[string]Property {
 	// ---- C06 ------------------------------------------------------------
 	c06 := []Job{lemma}
 	c06 = append(c06, Job{Harness: "H_C06_rect", Args: []int64{0}, Tier: "quick", Summaries: []string{"isCollinear"}, Sites: []string{"triSign1"}, NoLive: true,
-		Covers: []string{"C06.done"}, TimeoutMs: 60000,
+		Covers: []string{"C06.done"}, TimeoutMs: 120000,
 		Bounds: "clip rectangle with 4 symbolic sides x one closed axis-aligned rectangle path with 4 symbolic sides, either orientation, all in [-2^29, 2^29]; region at a fully symbolic probe point (exact winding oracle), vertices within the rectangle, inside-unchanged, outside-vanishes"})
 	for sh := int64(5); sh <= 8; sh++ {
 		c06 = append(c06, Job{Harness: "H_C06_rect", Args: []int64{sh}, Tier: "quick", Summaries: []string{"isCollinear"}, Sites: []string{"triSign1"}, NoLive: true,
-			Covers: []string{"C06.done"}, TimeoutMs: 60000,
+			Covers: []string{"C06.done"}, TimeoutMs: 120000,
 			Bounds: "clip rectangle x concave rectilinear 8-gon (rectangle with a notch), 11 symbolic coordinates, restricted to placements where the rectangle side cuts both arms of the notch (result touches that side in two stretches)"})
 	}
 	c06 = append(c06, Job{Harness: "H_C06_rect", Args: []int64{10}, Tier: "quick", Summaries: []string{"isCollinear"}, Sites: []string{"triSign1"}, NoLive: true,
-		Covers: []string{"C06.done"}, TimeoutMs: 60000, Bounds: "L-shaped hexagon whose solid block contains the clip rectangle with all four rectangle corners on the polygon's boundary"})
+		Covers: []string{"C06.done"}, TimeoutMs: 120000, Bounds: "L-shaped hexagon whose solid block contains the clip rectangle with all four rectangle corners on the polygon's boundary"})
 	c06 = append(c06, Job{Harness: "H_C06_rect", Args: []int64{9}, Tier: "thorough", Summaries: []string{"isCollinear"}, Sites: []string{"triSign1"}, NoLive: true,
-		Covers: []string{"C06.done"}, TimeoutMs: 60000, Bounds: "clip rectangle x L-shaped hexagon, 6+4 symbolic coordinates, all mirror images and both orientations"})
+		Covers: []string{"C06.done"}, TimeoutMs: 120000, Bounds: "clip rectangle x L-shaped hexagon, 6+4 symbolic coordinates, all mirror images and both orientations"})
 	ps["C06"] = Property{ID: "C06", Level: "model_checking",
 		Explain: "RectClipPaths64 (location state machine, intersections, corner insertion, edge tidying) executed on every feasible path of the family; winding number of the result compared with the input's at a symbolic probe inside the rectangle and with 0 outside",
 		Assumes: []string{floatAssume, heapAssume, solverAssume, "isCollinear summarised by its exact cross product (lemma job in the same check; triSign(1) site excluded)", "paths with sloped edges are outside these jobs"},
